@@ -3,3 +3,4 @@ import NutilsVerif.Core.Proto
 import NutilsVerif.Props.C15
 import NutilsVerif.Props.C01
 import NutilsVerif.Props.Poly
+import NutilsVerif.Props.C01Driver
